@@ -25,11 +25,12 @@ class SurvSim:
         self.pipes = []        # dict(open, txq=[survey seq])
         self.rid = {}          # survey seq -> R index
         self.nsurvey = 0
-        self.tg = {}           # target -> dict(T, live(seq or None), expire, lmq, rq=[aio])
+        self.tg = {}           # target -> dict(T, live(seq or None), expire, lmq, rq=[aio], old=[earlier seqs])
+        self.dl = {}           # pending aio -> when it times out (its own timeout or the survey deadline, whichever is first)
         self.add_target("s0", 1000)
 
     def add_target(self, t, T):
-        self.tg[t] = {"T": T, "live": None, "cur": None, "expire": 0, "lmq": 0, "rq": []}
+        self.tg[t] = {"T": T, "live": None, "cur": None, "expire": 0, "lmq": 0, "rq": [], "old": []}
 
     def register(self):
         for p in self.pipes:
@@ -42,6 +43,8 @@ class SurvSim:
         g["lmq"] = 0
         seq = self.nsurvey
         self.nsurvey += 1
+        if g["cur"] is not None:
+            g["old"].append(g["cur"])
         g["live"] = g["cur"] = seq
         g["expire"] = self.now + g["T"]
         for p in self.pipes:
@@ -72,13 +75,15 @@ class SurvSim:
     def advance(self, ms):
         self.now += ms
         for g in self.tg.values():
-            if g["rq"] and g["expire"] < self.now:
-                g["rq"] = []
+            gone = [a for a in g["rq"] if self.dl.get(a, g["expire"]) < self.now]
+            if gone:       # any receive that times out retires the survey (surv0_ctx_cancel)
+                g["rq"] = [a for a in g["rq"] if a not in gone]
                 g["live"] = None
 
     def can_advance(self, ms):
         n = self.now + ms
-        return all(abs(n - g["expire"]) >= 1000 for g in self.tg.values() if g["cur"] is not None)
+        return (all(abs(n - g["expire"]) >= 1000 for g in self.tg.values() if g["cur"] is not None) and
+                all(abs(n - self.dl[a]) >= 1000 for g in self.tg.values() for a in g["rq"] if a in self.dl))
 
     def recv_outcome(self, t):
         """'estate' | 'msg' | 'wait'"""
@@ -130,6 +135,17 @@ def gen_surveyor_case(rng, nbfix):
         elif r < 0.30 and naio < 60:
             t = rng.choice(targets)
             out = sim.recv_outcome(t)
+            g = sim.tg[t]
+            if rng.random() < 0.4:
+                # a finite timeout of the receive itself: ending before, or (to be clamped) after the survey deadline
+                left = g["expire"] - sim.now
+                tmos = [x for x in (500, 1500, 2500, g["T"] - 500, g["T"], left - 1000, left + 1000, left + 3000)
+                        if x > 0 and (out != "wait" or abs(sim.now + x - g["expire"]) >= 1000)]
+                if tmos:
+                    tmo = rng.choice(tmos)
+                    lines.append("aiotmo a%d %d" % (naio, tmo))
+                    if out == "wait":
+                        sim.dl[naio] = min(sim.now + tmo, g["expire"])
             lines.append("recv %s a%d" % (t, naio))
             if out == "wait":
                 sim.tg[t]["rq"].append(naio); pend[naio] = t
@@ -149,7 +165,11 @@ def gen_surveyor_case(rng, nbfix):
             nresp += 1
             body = "bb%04x" % nresp
             known = sorted(sim.rid)
-            if k < 0.55 and known:
+            stale = [q for g in sim.tg.values() if g["rq"] for q in g["old"] if q in sim.rid]
+            if k < 0.18 and stale:
+                # the id of an earlier survey of a context that has a receive pending on a later one
+                lines.append("inject p%d [R%d]%s" % (p, sim.rid[rng.choice(stale)], body))
+            elif k < 0.55 and known:
                 cur = [g["live"] for g in sim.tg.values() if g["live"] in sim.rid]
                 seq = rng.choice(cur) if cur and rng.random() < 0.75 else rng.choice(known)
                 lines.append("inject p%d [R%d]%s" % (p, sim.rid[seq], body))
@@ -182,6 +202,9 @@ def gen_surveyor_case(rng, nbfix):
             cands = [500, 1000, 2000]
             for g in live:
                 cands += [g["expire"] - 1000 - sim.now, g["expire"] + 1000 - sim.now]
+                for a in g["rq"]:
+                    if a in sim.dl:
+                        cands += [sim.dl[a] - 1000 - sim.now, sim.dl[a] + 1000 - sim.now]
             cands = [c for c in cands if c > 0 and sim.can_advance(c)]
             if cands:
                 ms = rng.choice(cands)
@@ -519,6 +542,7 @@ def oracle_surveyor(case, obs):
     delivered = {}      # (token, body) -> count
     pend = {}           # aio -> (target, kind)
     aio_target = {}
+    aio_tmo = {}        # aio -> its own timeout (aiotmo), ms
     exp_q = {}          # pipe -> expected transport sequence of survey bodies (head = in flight)
     started = {}        # pipe -> open as far as the oracle knows
     accepted_order = []
@@ -535,6 +559,11 @@ def oracle_surveyor(case, obs):
             T[t[1]] = T["s0"]
         if op == "advance":
             clock += int(t[1])
+        if op == "aiotmo":
+            if int(t[2]) > 0:
+                aio_tmo[int(t[1][1:])] = int(t[2])
+            else:
+                aio_tmo.pop(int(t[1][1:]), None)
         if op == "conn" and o["newpipe"] is not None:
             st = o["pipes"].get(o["newpipe"], {}).get("st")
             started[o["newpipe"]] = (st == "o")
@@ -646,7 +675,7 @@ def oracle_surveyor(case, obs):
                     if rvs != [11]:
                         return (k, "receive with no live survey (none sent, or deadline passed) completed with %r, not NNG_ESTATE" % rvs)
                 elif not rvs:
-                    pend[a] = (tg, "recv")
+                    pend[a] = (tg, clock + aio_tmo[a] if a in aio_tmo else None)    # when its own timeout ends
         if op == "cancel":
             a = int(t[1][1:])
             if a in pend:
@@ -666,17 +695,22 @@ def oracle_surveyor(case, obs):
                 tg = pend[a][0]
                 c = cur[tg]
                 if rv == 5:
+                    own = pend[a][1]
+                    if clock < c["expire"] and (own is None or clock < own):
+                        return (k, "pending receive timed out before the survey deadline and before its own timeout")
                     if clock < c["expire"]:
-                        return (k, "pending receive timed out before the survey deadline")
+                        c["dead"] = True        # as coded: a receive timing out retires the survey
                     del pend[a]
                 elif rv != 0:
                     if op not in ("close", "ctxclose"):
                         return (k, "pending receive a%d failed with %d" % (a, rv))
                     del pend[a]
         if op == "advance":
-            for a, (tg, _) in list(pend.items()):
+            for a, (tg, own) in list(pend.items()):
                 if clock >= cur[tg]["expire"]:
-                    return (k, "receive a%d still pending after the survey deadline (must fail with NNG_ETIMEDOUT)" % a)
+                    return (k, "receive a%d still pending after the survey deadline, whatever its own timeout (must fail with NNG_ETIMEDOUT)" % a)
+                if own is not None and clock >= own:
+                    return (k, "receive a%d still pending after its own timeout" % a)
         # --- every delivery: right context, current id, before the deadline, injected, not twice
         for a, got in deliveries(o):
             if op == "recvnb" and a is None:
